@@ -66,6 +66,26 @@ def plan_st(draw, tier):
             queries.append(["zero", -1, [0] * h.d])
         else:
             queries.append(["random", -1, draw(st.lists(st.integers(-4, 4), min_size=h.d, max_size=h.d))])
+    if draw(st.integers(0, 9)) == 0:
+        # wide, sparse contexts (indicator features of a vocabulary): the drawn features sit in a few of more than a
+        # hundred columns, every other column is zero in the whole history - and some queries are non-zero exactly there
+        width = draw(st.sampled_from([101, 128, 300]))
+        pos = draw(st.lists(st.integers(0, width - 1), min_size=h.d, max_size=h.d, unique=True))
+
+        def emb(row):
+            out = [0] * width
+            for p_, v in zip(pos, row):
+                out[p_] = v
+            return out
+        for op in h.ops:
+            op[3] = [emb(r) for r in op[3]]
+        stored = [emb(r) for r in stored]
+        queries = [[k, i, emb(q)] for k, i, q in queries]
+        for _ in range(draw(st.integers(1, 3))):
+            q = list(stored[draw(st.integers(0, len(stored) - 1))])
+            for _ in range(draw(st.integers(1, 2))):
+                q[draw(st.integers(0, width - 1))] += draw(st.sampled_from([1, -1, 3, 5, -2]))
+            queries.append(["random", -1, q])
     early = [i for i in range(len(h.ops) - 1) if draw(st.booleans())]
     return {"config": cfg, "ops": h.ops, "queries": queries, "query_after": early}
 
